@@ -10,7 +10,8 @@ namespace {
 struct St {
     nix::File file;
     nix::Block block;
-    nix::DataArray da;
+    nix::DataArray h[2];      // two long-lived handles of the one array (separate backend objects)
+    unsigned muts = 0; int lastMut = 0;
     std::unique_ptr<nix::DataView> view;
     std::string path;
     nix::Compression fileCompr = nix::Compression::Auto;
@@ -18,13 +19,18 @@ struct St {
 
 void resetAll() {
     st.view.reset();
-    st.da = nix::DataArray();
+    st.h[0] = nix::DataArray(); st.h[1] = nix::DataArray(); st.muts = 0; st.lastMut = 0;
     st.block = nix::Block();
     if (st.file) { st.file.close(); st.file = nix::File(); }
     if (!st.path.empty()) std::remove(st.path.c_str());
     st.path.clear();
 }
 struct Init { Init() { resetHooks().push_back(resetAll); } } init;
+
+// Two handles of one array must be indistinguishable (nothing may be cached in a handle): changes go mostly through h[0],
+// every third through h[1]; reads go through the handle that did not make the last change.
+nix::DataArray &wrH() { st.lastMut = (st.muts++ % 3 == 2) ? 1 : 0; return st.h[st.lastMut]; }
+nix::DataArray &rdH() { return st.h[1 - st.lastMut]; }
 
 nix::DataType dtOf(const std::string &t) {
     if (t == "Bool") return nix::DataType::Bool;
@@ -158,7 +164,8 @@ DRV_OP(da_new) {
         st.fileCompr = comprOf(a[4]);
         st.file = nix::File::open(st.path, nix::FileMode::Overwrite, "hdf5", st.fileCompr);
         st.block = st.file.createBlock("b", "t");
-        st.da = st.block.createDataArray("a", "t", dtOf(a[1]), nd(a[2]), comprOf(a[3]));
+        st.h[0] = st.block.createDataArray("a", "t", dtOf(a[1]), nd(a[2]), comprOf(a[3]));
+        st.h[1] = st.block.getDataArray("a");
         return std::string();
     });
 }
@@ -167,7 +174,7 @@ DRV_OP(da_wr) {
     if (a.size() != 5) throw ProtoError("da_wr arity");
     return guarded([&]() {
         std::vector<std::string> v = tokList(a[4]);
-        Writer w{&st.da, dtOf(a[1]), nd(a[2]), nd(a[3]), &v};
+        Writer w{&wrH(), dtOf(a[1]), nd(a[2]), nd(a[3]), &v};
         return withType(w.dt, w);
     });
 }
@@ -175,25 +182,25 @@ DRV_OP(da_wr) {
 DRV_OP(da_rd) {
     if (a.size() != 5) throw ProtoError("da_rd arity");
     return guarded([&]() {
-        Reader r{&st.da, dtOf(a[1]), nd(a[2]), nd(a[3]), (size_t) tokNat(a[4])};
+        Reader r{&rdH(), dtOf(a[1]), nd(a[2]), nd(a[3]), (size_t) tokNat(a[4])};
         return withType(r.dt, r);
     });
 }
 // da_ext <shape>
 DRV_OP(da_ext) {
     if (a.size() != 2) throw ProtoError("da_ext arity");
-    return guarded([&]() { st.da.dataExtent(nd(a[1])); return std::string(); });
+    return guarded([&]() { wrH().dataExtent(nd(a[1])); return std::string(); });
 }
 // da_shape => ok [shape] dtype
 DRV_OP(da_shape) {
-    return guarded([&]() { return ndTok(st.da.dataExtent()) + " " + nix::data_type_to_string(st.da.dataType()); });
+    return guarded([&]() { return ndTok(rdH().dataExtent()) + " " + nix::data_type_to_string(rdH().dataType()); });
 }
 // da_app <dtype> <count> <axis> [values]
 DRV_OP(da_app) {
     if (a.size() != 5) throw ProtoError("da_app arity");
     return guarded([&]() {
         std::vector<std::string> v = tokList(a[4]);
-        Appender w{&st.da, dtOf(a[1]), nd(a[2]), (size_t) tokNat(a[3]), &v};
+        Appender w{&wrH(), dtOf(a[1]), nd(a[2]), (size_t) tokNat(a[3]), &v};
         return withType(w.dt, w);
     });
 }
@@ -201,17 +208,19 @@ DRV_OP(da_app) {
 DRV_OP(da_poly) {
     if (a.size() != 2) throw ProtoError("da_poly arity");
     return guarded([&]() {
-        if (a[1] == "~") { st.da.polynomCoefficients(nix::none); return std::string(); }
+        nix::DataArray &da = wrH();
+        if (a[1] == "~") { da.polynomCoefficients(nix::none); return std::string(); }
         std::vector<double> c;
         for (auto &x : tokList(a[1])) c.push_back(tokF64(x));
-        st.da.polynomCoefficients(c);
+        da.polynomCoefficients(c);
         return std::string();
     });
 }
 DRV_OP(da_origin) {
     if (a.size() != 2) throw ProtoError("da_origin arity");
     return guarded([&]() {
-        if (a[1] == "~") st.da.expansionOrigin(nix::none); else st.da.expansionOrigin(tokF64(a[1]));
+        nix::DataArray &da = wrH();
+        if (a[1] == "~") da.expansionOrigin(nix::none); else da.expansionOrigin(tokF64(a[1]));
         return std::string();
     });
 }
@@ -220,11 +229,11 @@ DRV_OP(da_reopen) {
     if (a.size() != 2) throw ProtoError("da_reopen arity");
     return guarded([&]() {
         st.view.reset();
-        st.da = nix::DataArray(); st.block = nix::Block();
+        st.h[0] = nix::DataArray(); st.h[1] = nix::DataArray(); st.block = nix::Block();
         st.file.close();
         st.file = nix::File::open(st.path, a[1] == "ro" ? nix::FileMode::ReadOnly : nix::FileMode::ReadWrite, "hdf5", st.fileCompr);
         st.block = st.file.getBlock("b");
-        st.da = st.block.getDataArray("a");
+        st.h[0] = st.block.getDataArray("a"); st.h[1] = st.block.getDataArray("a");
         return std::string();
     });
 }
@@ -233,7 +242,7 @@ DRV_OP(dv_new) {
     if (a.size() != 3) throw ProtoError("dv_new arity");
     return guarded([&]() {
         st.view.reset();      // a failed construction leaves no view
-        st.view.reset(new nix::DataView(st.da, nd(a[1]), nd(a[2])));
+        st.view.reset(new nix::DataView(rdH(), nd(a[1]), nd(a[2])));
         return ndTok(st.view->dataExtent());
     });
 }
